@@ -6,7 +6,7 @@ from harness import dtwgen
 COQ_FILES = ["theories/BandTie.v", "gen/Gen_cmem.v", "theories/Mem.v", "theories/CBand.v", "gen/Gen_cwps.v", "theories/CWps.v", "gen/Gen_cfill.v", "theories/CFill.v",
              "gen/Gen_cexpand.v", "theories/CExpand.v", "gen/Gen_cloc.v", "theories/CLoc.v",
              "gen/Gen_cdist.v", "theories/CDistCanon.v", "theories/CDistTie.v", "theories/CDistProofs.v", "theories/CDistSpec.v",
-             "gen/Gen_cwpsk.v", "gen/Gen_cexpw.v", "theories/CWpsCanon.v", "theories/CWpsKernel.v", "theories/CWpsTie.v", "theories/CWpsCanonEu.v", "theories/CWpsValue.v", "theories/CWpsSpec.v", "theories/CWpsTieEu.v", "theories/CWpsSpecEu.v", "theories/CExpW.v", "theories/CWpsPrune.v", "theories/CWpsSpecB.v", "theories/CWpsSpecBEu.v", "theories/CWpsValueB.v", "gen/Gen_cparts.v", "theories/CParts.v", "theories/CWpsFinal.v", "props/C08.v"]
+             "gen/Gen_cwpsk.v", "gen/Gen_cexpw.v", "theories/CWpsCanon.v", "theories/CWpsKernel.v", "theories/CWpsTie.v", "theories/CWpsCanonEu.v", "theories/CWpsValue.v", "theories/CWpsSpec.v", "theories/CWpsTieEu.v", "theories/CWpsSpecEu.v", "theories/CExpW.v", "theories/CWpsPrune.v", "theories/CWpsSpecB.v", "theories/CWpsSpecBEu.v", "theories/CWpsValueB.v", "theories/CWpsMarks.v", "gen/Gen_cparts.v", "theories/CParts.v", "theories/CWpsFinal.v", "props/C08.v"]
 THEOREMS = [("DVProps.C08", "C08_psi_prologue_in_allocation"), ("DVProps.C08", "C08_psi_scan_in_row"),
             ("DVProps.C08", "C08_band_write_in_buffer"), ("DVProps.C08", "C08_c_row_loop_accesses_in_buffer"),
             ("DVProps.C08", "C08_compact_slot_in_row"), ("DVProps.C08", "C08_compact_shift_steps"),
